@@ -1,5 +1,4 @@
 CONSTANT Small = FALSE
 SPECIFICATION Spec
-INVARIANT TargetIndependence
-INVARIANT SpecPrecedence
+INVARIANT OverrideEquivalence
 CHECK_DEADLOCK FALSE
